@@ -6,6 +6,9 @@ source AST (impl vs spec).  (X) compiled probe crates: see vlib/probe.py — td_
 of real generated code vs `evalSrc`."""
 from .pipe import *
 from . import probe
+from .c03 import walk, exhaustive_projects
+
+CHAIN_CORPUS = exhaustive_projects()
 
 RULE = ("source ASTs (text / {{var}} with whitespace variants and formatters / <comp> nested incl. same-name nesting) printed to strings, "
         "alone (ParsedValue::new) and as keys of generated projects (subkeys, namespaces, several locales); raw token soup for the model tie; "
@@ -13,31 +16,91 @@ RULE = ("source ASTs (text / {{var}} with whitespace variants and formatters / <
         "non-trivial = source has at least one variable or component; distinct = distinct source text")
 
 
+def defined_in_files(p, ns, x, path):
+    """does locale `x` define `path` (a key that is absent, or null, anywhere on the way is not defined)"""
+    t = p["files"].get((ns, x))
+    if t is None:
+        return False
+    cur = merged_key_tree(t)
+    for k in path:
+        if not isinstance(cur, dict) or k not in cur:
+            return False
+        cur = cur[k]
+        if cur == "null":
+            return False
+    return True
+
+
 def oracle(ctx, p, o, i):
+    """every accessible string key x every locale: the value the generated accessor renders for that locale (the arm of
+    `match locale` given by DefaultedLocales::compute, read in the locale's final values) denotes the source text written
+    for the key in the *effective* locale (independent walk over `inherits` and the files' presence pattern)"""
     if "ok" not in o["ci"]:
         return
     res = o["impl"]["result"]["ok"]
+    cfg = o["impl"]["cfg"]
+    inherits, default = dict(cfg["inherits"]), cfg["default"]
     env = Env()
-    for (ns, l, path), rec in p["meta"].items():
-        if rec.get("kind") != "string" or rec.get("presence") != "defined" or "src" not in rec:
-            continue
-        if any(plural_split(k) for k in path):
-            continue
-        ns_out = next((n for n in res["nss"] if n["key"] == ns), None)
-        if ns_out is None:
-            continue
-        v = locale_value_at(ns_out, l, path)
-        if v is None:
-            continue      # surplus / shadowed group
-        got = pv_eval(env, v)
-        exp = src_eval(env, rec["src"])
-        st = gen.src_stats(rec["src"])
-        ctx.seen({"src": gen.print_src(rec["src"])}, nontrivial=st["var"] + st["comp"] > 0)
-        ctx.count("depth=%d" % st["depth"])
-        if got != exp:
-            report_violation(ctx, "render:text-differs-from-source", {
-                "case": project_text(p), "namespace": ns, "locale": l, "key_path": list(path), "source": gen.print_src(rec["src"]),
-                "expected_by_spec": exp, "implementation": got, "harness": "parser_h pipeline + denotation of the dumped value"})
+    for ns_out in res["nss"]:
+        ns = ns_out["key"]
+        for path, lv in iter_bki(ns_out["keys"]):
+            if any(plural_split(k) for k in path):
+                continue
+            arms = {}
+            for t, ls in lv["defaults"]["compute"]:
+                for x in ls:
+                    arms[x] = t
+            for l in cfg["locales"]:
+                if p["files"].get((ns, l)) is None:
+                    continue
+                eff = walk(inherits, default, lambda x: defined_in_files(p, ns, x, path), l)
+                rec = p["meta"].get((ns, eff, tuple(path)))
+                if rec is None or rec.get("kind") != "string" or rec.get("presence") != "defined" or "src" not in rec:
+                    continue
+                rendered_from = arms.get(l, l)
+                v = locale_value_at(ns_out, rendered_from, path)
+                got = pv_eval(env, v) if v is not None and v["t"] != "default" else None
+                exp = src_eval(env, rec["src"])
+                if l == eff:
+                    st = gen.src_stats(rec["src"])
+                    ctx.seen({"src": gen.print_src(rec["src"])}, nontrivial=st["var"] + st["comp"] > 0)
+                    ctx.count("depth=%d" % st["depth"])
+                else:
+                    ctx.count("rendered_through_fallback")
+                    if eff != default:
+                        ctx.count("rendered_through_inherits")
+                if got != exp:
+                    report_violation(ctx, "render:text-differs-from-source", {
+                        "case": project_text(p), "namespace": ns, "locale": l, "effective_locale_by_spec": eff,
+                        "match_arm_of_the_implementation": rendered_from, "key_path": list(path), "source": gen.print_src(rec["src"]),
+                        "expected_by_spec": exp, "implementation": got, "harness": "parser_h pipeline + denotation of the dumped value"})
+
+
+def chain_projects(rng, n):
+    """C03's family (every inherits map on en/fr/de/es x presence patterns of a value key and a group leaf), with interpolated
+    sources and their ASTs recorded: long inheritance chains, forks and cycles for the rendered text"""
+    out = []
+    for q in rng.sample(CHAIN_CORPUS, n):
+        p = dict(q)
+        p["files"], p["meta"] = {}, {}
+        for (ns, l), tree in q["files"].items():
+            def conv(t, prefix):
+                pairs = []
+                for k, v in t["o"]:
+                    path = prefix + (k,)
+                    if isinstance(v, dict) and "o" in v:
+                        pairs.append([k, conv(v, path)])
+                    elif isinstance(v, str):
+                        src = [{"k": "text", "s": v + " "}] + gen.gen_src(rng, maxn=2, vars_=["x", "name"], fmts=False)
+                        src = gen.fix_text_boundaries(src)
+                        p["meta"][(ns, l, path)] = {"kind": "string", "presence": "defined", "src": src}
+                        pairs.append([k, gen.print_src(src)])
+                    else:
+                        pairs.append([k, v])
+                return {"o": pairs}
+            p["files"][(ns, l)] = conv(tree, ())
+        out.append(p)
+    return out
 
 
 def run(ctx):
@@ -85,6 +148,7 @@ def run(ctx):
     ctx.sample({"source": strings[len(corpus)], "denotation": src_eval(env, srcs[0])})
     # (2) projects
     projects = [proj.gen_project(rng, {"fk": False}) for _ in range(ctx.budget(300, 6000))]
+    projects += chain_projects(rng, ctx.budget(300, 6000))
     generic_pipeline_check(ctx, [], projects, oracle, "C01")
     # (3) compiled probe crates
     probe.run_render_probe(ctx, rng, n_crates=ctx.budget(1, 6), flavours=("string", "display", "view"))
